@@ -156,7 +156,15 @@ TConsume ==
        ELSE (IF R.readyq = <<>> \/ R.panicked THEN UNCHANGED vars ELSE RConsume)
     /\ ProjMatch
 
-TraceNext == TReset \/ TConnect \/ TFinish \/ TPush \/ TDrain \/ TClose \/ TWill \/ TRawEvent \/ TEvent \/ TConsume
+\* the real router reported that it has nothing to do (the harness' idle loop stopped): in the model, too, nothing can
+\* happen without a new stimulus.  (Strict: the ready queue and the channel length are compared anyway.)
+TQuiet ==
+    /\ IsEvent("quiet")
+    /\ UNCHANGED vars
+    /\ ProjMatch
+    /\ (E.res.pending = 0 /\ E.res.ready = 0) => RouterStill
+
+TraceNext == TQuiet \/ TReset \/ TConnect \/ TFinish \/ TPush \/ TDrain \/ TClose \/ TWill \/ TRawEvent \/ TEvent \/ TConsume
 TraceSpec == TraceInit /\ [][TraceNext]_tvars
 
 \* the same step properties on traces (a reset line starts a new behaviour)
